@@ -306,6 +306,11 @@ func ruleNilGuard(c *Ctx) {
 	if len(optional) < 6 {
 		c.R.Undecided("R-NILGUARD", "", "optional fields", fmt.Sprintf("only %d nil-checked config fields discovered, expected at least 6", len(optional)))
 	}
+	// client state that is nil in some states of a live Client: the runner is
+	// unset by Kill and never set for a plugin reattached in test mode
+	if rf := p.FieldObj(modPath, "Client", "runner"); rf != nil {
+		optional[rf] = "Client.runner"
+	}
 	ci := p.Calls()
 	n := 0
 	for _, f := range p.Funcs {
